@@ -3,6 +3,8 @@ C04 — Serialiser enforces the size limit exactly and stays inside its buffers.
 -/
 import CoapLite.Lemmas.CodecFwd
 import CoapLite.Lemmas.CopyTrace
+import CoapLite.Lemmas.Shape.Packet
+import CoapLite.Lemmas.Shape.Global
 
 namespace CoapLite.C04
 open CoapLite Codec Spec
@@ -61,5 +63,20 @@ example : enc { Packet.new with payload := List.replicate 3 0x55 } (some 8) =
     .ok [0x40, 1, 0, 0, 0xFF, 0x55, 0x55, 0x55] := by decide
 example : enc { Packet.new with payload := List.replicate 3 0x55 } (some 7) =
     .err .invalidPacketLength := by decide
+
+/-! ### tie to the source: the state the model carries is the state the code carries
+
+`Shapes.*` (Generated/Shapes.lean) is re-read from /repo/src on every run: the field lists of the
+structs this property's model mirrors, and every construct that introduces state outside the values
+the API passes around (thread-locals, `static mut`, cells, locks, atomics). The model accounts for
+exactly these fields (Lemmas/Shape/*.lean say which model field mirrors which); a field or a
+global added to the code – a memo, a marker, a digest in place of the data – breaks this theorem
+even if no explored input behaves differently. -/
+theorem state_shape_matches_source :
+    Shapes.globalState = [] ∧
+    Shapes.packet = [("header", "Header"), ("token", "Vec<u8>"), ("options", "BTreeMap<u16,LinkedList<Vec<u8>>>"), ("payload", "Vec<u8>")] ∧
+    Shapes.header = [("ver_type_tkl", "u8"), ("code", "MessageClass"), ("message_id", "u16")] ∧
+    Shapes.headerRaw = [("ver_type_tkl", "u8"), ("code", "u8"), ("message_id", "u16")] :=
+  ⟨ShapeTie.no_global_state, ShapeTie.packet, ShapeTie.header, ShapeTie.headerRaw⟩
 
 end CoapLite.C04
